@@ -389,7 +389,7 @@ func execute(c Case, rec *tapeRec) batch.Result {
 		if after < before {
 			res.Counters["runs_after_which_trim_expired_entries"]++
 		}
-		digests = append(digests, vr.Digest^h64(strings.ReplaceAll(out.Stdout, dir, "$DIR")))
+		digests = append(digests, vr.Digest^h64(strings.ReplaceAll(out.Stdout, dir, "$DIR"))^simlint.DiskDigest(disk))
 		if cl, d := simlint.Problems(vr); cl != "" {
 			fail(cl, "%s: %s", what, d)
 			break
